@@ -392,6 +392,7 @@ class Node:
                 f"rejecting a new connection attempt from {conn.node_name}, "
                 f"because the node is shutting down")
             peer_socket.close()
+            conn.close(signal_node=False)
             return None
 
         with self._busy_lock:
@@ -401,6 +402,7 @@ class Node:
                     f"rejecting a new connection attempt from "
                     f"{conn.node_name}, as the peer is already connected")
                 peer_socket.close()
+                conn.close(signal_node=False)
                 return None
 
             conn.ident = self._generate_connection_id()
